@@ -375,6 +375,38 @@ def wild_case(case):
     return (target, len(acc))
 
 
+def many_tags_case(case):
+    """Thousands of tags on one library / at module level: ids are 1..n in order of addition, every name finds its id
+    and every id its name; a duplicate among them is still refused."""
+    mod = load_module()
+    n, target = case['n'], case['target']
+    lib = mod.TagLibrary()
+    add = mod.add_tag if target == 'G' else lib.add_tag
+    names = [f'T{(i * 7919) % n:05d}' for i in range(n)]
+    for nm in names:
+        add(nm)
+    look = (lambda nm: getattr(mod, nm)) if target == 'G' else (lambda nm: getattr(lib, nm))
+    getname = mod.get_tag_name if target == 'G' else lib.get_tag_name
+    items = mod.itemize() if target == 'G' else lib.itemize()
+    if [list(t) for t in items] != [['NONE', 0]] + [[nm, i + 1] for i, nm in enumerate(names)]:
+        raise Violation(f'{n} tags at {target}: itemize() differs from the id-ordered tag list')
+    for i in list(range(0, n, 53)) + [n - 2, n - 1]:
+        if look(names[i]) != i + 1 or getname(i + 1) != names[i]:
+            raise Violation(f'{n} tags at {target}: tag {names[i]!r} / id {i + 1} do not map to each other',
+                            expected=[i + 1, names[i]], observed=[look(names[i]), getname(i + 1)])
+    for nm in (names[0], names[n // 2], names[-1]):
+        try:
+            add(nm)
+        except Exception as e:      # noqa
+            if type(e).__name__ != 'DuplicateTagError':
+                raise Violation(f'{n} tags: duplicate {nm!r} raised {type(e).__name__}')
+        else:
+            raise Violation(f'{n} tags at {target}: duplicate {nm!r} accepted')
+    if target != 'G' and len(lib) != n + 1:
+        raise Violation(f'{n} tags: len', expected=n + 1, observed=len(lib))
+    return n
+
+
 def wild_cases():
     for a, b in WILD:
         for target in ('L1', 'G'):
@@ -530,6 +562,17 @@ def run(ctx):
             ctx.report(case, v)
             return
     ctx.leg('wild_names', cases=nw, pairs=len(WILD))
+    for n in ((300,) if ctx.small else (3000,) if ctx.tier == 'quick' else (3000, 40000)):
+        for target in ('L1', 'G'):
+            case = {'leg': 'many_tags', 'n': n, 'target': target}
+            ctx.traces += 1
+            try:
+                ctx.transitions += hbfs._guard(many_tags_case, case)
+                ctx.outcome(('many_tags', n, target))
+            except Violation as v:
+                ctx.report(case, v)
+                return
+    ctx.leg('many_tags', note='3000 (thorough also 40000) tags on one library and at module level')
     if ctx.small:
         return
     for case in churn_cases():
@@ -554,6 +597,9 @@ def run(ctx):
 def replay(case):
     if case['leg'] == 'wild':
         hbfs._guard(wild_case, case)
+        return
+    if case['leg'] == 'many_tags':
+        hbfs._guard(many_tags_case, case)
         return
     if case['leg'] == 'blind':
         hbfs._guard(blind_case, case)
